@@ -150,3 +150,62 @@ fn c06_string_canary() {
     let r = ManuallyDrop::new(p.parse_unicode_literal(2));
     assert!(r.is_err());
 }
+
+/// Contract of parse_octet for a text whose FOLLOWING characters are concrete (`rest`, ending in a
+/// non-octal character) and whose first digit is symbolic: String building from symbolic text is
+/// beyond CBMC (DESIGN 1), one symbolic character is not.
+fn octal_escape_for(rest: &'static str, following_digits: &[u32]) {
+    let first_d: u8 = kani::any();
+    kani::assume(first_d < 8);
+    let first = (b'0' + first_d) as char;
+    let mut expect = first_d as u32;
+    for i in 0..2 {
+        if i < following_digits.len() {
+            expect = expect * 8 + following_digits[i]; // at most three digits in total
+        }
+    }
+    let mut p = StringParser::new(rest, StringKind::String, false, TextSize::new(0), TextSize::new(20));
+    let pos0 = p.get_pos().to_u32();
+    let c = p.parse_octet(first);
+    // Python: \ooo is the character with octal value ooo (up to 0o777 = U+01FF in text literals)
+    assert!(c as u32 == expect);
+    let consumed = if following_digits.len() >= 2 { 2 } else { following_digits.len() };
+    assert!(p.get_pos().to_u32() == pos0 + consumed as u32);
+    kani::cover!(expect > 0xff || following_digits.len() < 2);
+}
+
+// @ob id=C06.k.octal_escape_1 props=C06,C03 kind=bounded tier=quick timeout=600
+// @bound first digit symbolic (0-7); followed by the concrete texts "x", "" and "8"
+// @clause 1-3 digit octal escapes: a single digit is the character with that value; a non-octal character (also 8 and 9) or the end of the literal ends the escape; the unwraps in parse_octet cannot fail
+// @fns StringParser::parse_octet
+#[kani::proof]
+#[kani::unwind(12)]
+fn c06_octal_escape_1() {
+    octal_escape_for("x", &[]);
+    octal_escape_for("", &[]);
+    octal_escape_for("8", &[]);
+}
+
+// @ob id=C06.k.octal_escape_2 props=C06,C03 kind=bounded tier=quick timeout=600
+// @bound first digit symbolic (0-7); followed by the concrete texts "7x", "0" and "5" + a two-byte character
+// @clause 1-3 digit octal escapes: two digits
+// @fns StringParser::parse_octet
+#[kani::proof]
+#[kani::unwind(12)]
+fn c06_octal_escape_2() {
+    octal_escape_for("7x", &[7]);
+    octal_escape_for("0", &[0]);
+    octal_escape_for("5\u{e9}", &[5]);
+}
+
+// @ob id=C06.k.octal_escape_3 props=C06,C03 kind=bounded tier=quick timeout=600
+// @bound first digit symbolic (0-7); followed by the concrete texts "77x", "001" and "52"
+// @clause 1-3 digit octal escapes: three digits up to 777 = U+01FF - values above 377 are NOT reduced modulo 256 in text literals - and a fourth digit is not part of the escape
+// @fns StringParser::parse_octet
+#[kani::proof]
+#[kani::unwind(12)]
+fn c06_octal_escape_3() {
+    octal_escape_for("77x", &[7, 7]);
+    octal_escape_for("001", &[0, 0]);
+    octal_escape_for("52", &[5, 2]);
+}
